@@ -298,7 +298,12 @@ class EBB3Hooks(UnrollMixin, Hooks):
                 continue
         return False
 
+    decode_faults = False     # replies of an unverified device may be any bytes (C15)
+
     def may_raise(self, target, args, st, node):
+        if self.decode_faults and isinstance(target, Bound) and target.name == 'decode' and \
+                isinstance(target.obj, Opaque) and target.obj.label.startswith('reply#'):
+            return ('UnicodeDecodeError',)
         if not self.inject:
             return ()
         if isinstance(target, Bound) and target.obj == PORT and target.name in PORT_IO:
